@@ -655,6 +655,39 @@ impl<P: Payload> InitState<P> {
     }
 }
 
+// ---- verification hooks (guarded) ----
+#[cfg(feature = "dswd_vpncloud_verif")]
+impl InitMsg {
+    pub fn verif_read_from(
+        buffer: &[u8], trusted_keys: &[Ed25519PublicKey],
+    ) -> Result<(Self, Ed25519PublicKey), Error> {
+        Self::read_from(buffer, trusted_keys)
+    }
+
+    pub fn verif_write_to(&self, buffer: &mut [u8], key: &Ed25519KeyPair) -> Result<usize, io::Error> {
+        self.write_to(buffer, key)
+    }
+
+    pub fn verif_stage(&self) -> u8 {
+        self.stage()
+    }
+}
+
+#[cfg(feature = "dswd_vpncloud_verif")]
+impl<P: Payload> InitState<P> {
+    pub fn verif_salted_hash(&self) -> SaltedNodeIdHash {
+        self.salted_node_id_hash
+    }
+
+    pub fn verif_failed_retries(&self) -> usize {
+        self.failed_retries
+    }
+
+    pub fn verif_last_message(&self) -> Option<Vec<u8>> {
+        self.last_message.clone()
+    }
+}
+
 #[cfg(test)]
 mod tests {
     use super::*;
